@@ -96,6 +96,9 @@ var programs = []prog{
 	mkProg("callback", "S:1:R,1,2:2:0:0:0 C:2:R,1,3:3 S:3:R,1,4:4:0:0:0"),
 	mkProg("timeout", "S:1:R,1,2:2:0:0:0 T:2:100:R,1,3:3:0 S:3:R,1,4:4:0:0:0"),
 	mkProg("two-timeouts", "S:1:R,1,2:2:0:0:0 T:2:100:R,1,3:3:0 T:2:250:R,1,4:4:0 S:3:R,1,4:4:0:0:0"),
+	// a timer function that fails (duration -2: error 15 together with the zero time): the inserter's event is not acknowledged
+	mkProg("timer-fails", "S:1:R,1,2:2:0:0:0 T:2:-2:R,1,3:3:0 S:3:R,1,4:4:0:0:0"),
+	mkProg("timer-fails-second", "S:1:R,1,2:2:0:0:0 T:2:100:R,1,3:3:0 T:2:-2:R,1,4:4:0 S:3:R,1,4:4:0:0:0"),
 	mkProg("hooks", "S:1:R,1,2:2:0:0:0 S:2:R,1,3:3:0:0:0 H:3:0 H:4:0 H:5:1 D:0"),
 	mkProg("hooks-cancelled-call", "S:1:R,1,2:2:0:0:0 S:2:R,1,3:3:0:0:0 H:3:1001 H:4:1001 H:5:1002 D:0"),
 	mkProg("flaky", "S:1:F,2,11,R,1,2:2:0:0:0 S:2:F,1,12,R,1,3:3:0:0:0 O:bo=0"),
@@ -159,6 +162,9 @@ var pauseProgramsFmt = []string{
 	// AddTimeout without options leaves them alone), without and with a workflow default
 	"S:1:R,1,2:2:0:0:0 T:2:10:E,1,13:3:%d T:2:100000:R,1,4:4:0 O:retry=-1",
 	"S:1:R,1,2:2:0:0:0 T:2:10:E,1,13:3:%d T:2:100000:R,1,4:4:0 O:dpause=4,retry=-1",
+	// a failing TIMER function: the inserter's handler fails, counted like any other failure of that process for that run
+	"S:1:R,1,2:2:0:0:0 T:2:-2:R,1,3:3:%d O:retry=-1",
+	"S:1:R,1,2:2:0:0:0 T:2:-2:R,1,3:3:%d O:dpause=3,retry=1000,stamp=1",
 }
 
 var badReturnPrograms = []prog{
@@ -392,6 +398,12 @@ func genFaults(p *params, emit func(string, bool), frac float64) {
 		if vp := os.Getenv("VERIF_PROP"); pr.name == "step-error-wraps-cancel" && vp != "C07" && vp != "C11" {
 			// a failed Trigger removes a run that, in the failure-free twin, sits ahead in the same consumer and holds the
 			// other run back through its own failures and back-offs: the faulty history gets AHEAD of its twin
+			continue
+		}
+		if vp := os.Getenv("VERIF_PROP"); strings.HasPrefix(pr.name, "timer-fails") && vp != "C07" && vp != "C11" {
+			// a timer function that never succeeds: the inserter's event is redelivered for ever, and with a second timeout on the
+			// status the first one's timer is created again on every redelivery — such a history has no failure-free twin to be a
+			// prefix of (C01's final-state clause); the programs are C07's (and C11's: back-off after a user error)
 			continue
 		}
 		if pr.name == "delete-fails-twice" && os.Getenv("VERIF_PROP") != "C07" {
